@@ -303,3 +303,18 @@ package sync
 //@   modifies AP_set, AP_val_Hdr, ghost:storeAppends, ghost:appendedTop, errNonAdjacent.Head, errNonAdjacent.Attempted, $now, ranges.ranges, headerRange.headers, headerRange.start, State.ID, State.FromHeight, State.ToHeight, State.FromHash, State.ToHash, State.Start, State.End, State.Error, ghost:pendingAdds, elems(H), EH_Int, ghost:syncRuns, ghost:pendingReads
 //@ loop 0:
 //@   invariant [C07] every-trigger-syncs: recvd("Syncer.triggerSync") == syncRuns - old(syncRuns)
+
+//@ func (*headerRange).Empty(r)
+//@   props C07
+//@   ensures [C07] empty: result <==> len(r.headers) == 0
+
+//@ func (*headerRange).Head(r)
+//@   props C07
+//@   ensures [C07] last: result == ite(len(r.headers) == 0, zeroHdr, r.headers[len(r.headers) - 1])
+
+// the sync trigger is a one-slot mailbox: signalling never blocks and queues at most one wake-up
+//@ chaninv Syncer.triggerSync(m): true
+//@ func (*Syncer).wantSync(s)
+//@   props C07
+//@   ensures [C07] at-most-one: sent("Syncer.triggerSync") <= old(sent("Syncer.triggerSync")) + 1
+//@   ensures [C07] signals-or-already-pending: sent("Syncer.triggerSync") >= old(sent("Syncer.triggerSync"))
